@@ -7,10 +7,10 @@ ALL_KINDS_ASSUMPTIONS = [
 ]
 
 
-def hist(test, qchecks, qsteps, tchecks, tsteps, shards=16, extra_quick=None, extra_thorough=None, **kw):
+def hist(test, qchecks, qsteps, tchecks, tsteps, shards=16, qshards=8, extra_quick=None, extra_thorough=None, **kw):
     d = {
         "kind": "hist",
-        "quick": [{"test": test, "checks": qchecks, "steps": qsteps, "timeout": 600}] + (extra_quick or []),
+        "quick": [{"test": test, "checks": qchecks, "steps": qsteps, "shards": qshards, "timeout": 600}] + (extra_quick or []),
         "thorough": [{"test": test, "checks": tchecks, "steps": tsteps, "shards": shards, "timeout": 3000}] + (extra_thorough or []),
         "assumptions": ALL_KINDS_ASSUMPTIONS,
     }
@@ -25,14 +25,14 @@ def rule_of(pid):
 
 CHECKS = {
     "C01": hist("TestC01", 6000, 40, 20000, 60,
-                extra_quick=[{"test": "TestC01", "variant": "386", "checks": 1500, "steps": 40, "timeout": 600}, {"test": "TestClosureC01", "timeout": 600}],
-                extra_thorough=[{"test": "TestC01", "variant": "386", "checks": 10000, "steps": 60, "shards": 2, "timeout": 3000}],
+                extra_quick=[{"test": "TestScaleC01", "checks": 1, "shards": 4, "timeout": 600}, {"test": "TestC01", "variant": "386", "checks": 1500, "steps": 40, "timeout": 600}, {"test": "TestClosureC01", "timeout": 600}],
+                extra_thorough=[{"test": "TestScaleC01", "checks": 3, "shards": 8, "timeout": 1800}, {"test": "TestC01", "variant": "386", "checks": 10000, "steps": 60, "shards": 2, "timeout": 3000}],
                 kf_test="TestKF_C01",
                 essential=["absent_proper_prefix_of_stored", "absent_shares_prefix_gt10", "reinsert_after_delete",
                            "has_node16", "has_node48", "has_node256", "lost_node48", "lost_node256", "inspath_pathsplit_long"]),
     "C02": hist("TestC02", 5000, 40, 15000, 60,
-                extra_quick=[{"test": "TestC02", "variant": "386", "checks": 1500, "steps": 40, "timeout": 600}, {"test": "TestClosureC02", "timeout": 600}],
-                extra_thorough=[{"test": "TestC02", "variant": "386", "checks": 8000, "steps": 60, "shards": 2, "timeout": 3000}],
+                extra_quick=[{"test": "TestScaleC02", "checks": 1, "shards": 4, "timeout": 600}, {"test": "TestC02", "variant": "386", "checks": 1500, "steps": 40, "timeout": 600}, {"test": "TestClosureC02", "timeout": 600}],
+                extra_thorough=[{"test": "TestScaleC02", "checks": 3, "shards": 8, "timeout": 1800}, {"test": "TestC02", "variant": "386", "checks": 8000, "steps": 60, "shards": 2, "timeout": 3000}],
                 essential=["scan_ge3_after_delete", "has_node16", "has_node48", "has_node256", "lost_node48", "lost_node256"]),
     "C03": hist("TestC03", 6000, 40, 20000, 60,
                 extra_quick=[{"test": "TestClosureC03", "timeout": 600}],
@@ -41,10 +41,12 @@ CHECKS = {
                 extra_quick=[{"test": "TestClosureC04", "timeout": 600}],
                 essential=["prefix_proper_subset", "prefix_no_match", "prefix_arg_gt10", "has_node16", "has_node48", "has_node256", "has_long_path"]),
     "C05": hist("TestC05", 4000, 40, 12000, 60,
-                extra_quick=[{"test": "TestClosureC05", "timeout": 600}],
+                extra_quick=[{"test": "TestScaleC05", "checks": 1, "shards": 4, "timeout": 600}, {"test": "TestClosureC05", "timeout": 600}],
+                extra_thorough=[{"test": "TestScaleC05", "checks": 3, "shards": 8, "timeout": 1800}],
                 essential=["extreme_size_0", "extreme_size_1", "extreme_size_many", "k_zero", "k_gt_size", "has_node48", "has_node256"]),
     "C06": hist("TestC06", 5000, 40, 15000, 60,
-                extra_quick=[{"test": "TestClosureC06", "timeout": 600}],
+                extra_quick=[{"test": "TestScaleC06", "checks": 2, "shards": 8, "timeout": 600}, {"test": "TestClosureC06", "timeout": 600}],
+                extra_thorough=[{"test": "TestScaleC06", "checks": 6, "shards": 16, "timeout": 1800}],
                 essential=["inspath_empty", "inspath_leafsplit", "inspath_pathsplit", "inspath_pathsplit_long", "inspath_childadd", "delete_absent"]),
     "C08": hist("TestC08", 5000, 40, 15000, 60,
                 extra_quick=[{"test": "TestClosureC08", "timeout": 600}],
